@@ -354,6 +354,34 @@ def r1_primitive_symmetry(idx, r):
         r.require(rng == (rl[0], rl[0]), f"ascii:{meth}:width-for-every-float", fw,
                   msg=f"the writer renders a float into between {rng[0]} and {rng[1]} characters (three-digit exponents such as 1e-100 take one more, "
                       f"inf/nan fewer) but the reader always consumes {rl[0]}: every later field of the record is misread")
+    # a double needs 17 significant digits (`.16E`) to read back as the same binary64; every format the double writer can reach keeps them
+    def precisions(f, depth=0):
+        import re
+        out = []
+        for c in iter_calls(f.node):
+            if isinstance(c.func, ast.Attribute) and c.func.attr == "format":
+                fv = c.func.value
+                if isinstance(fv, ast.Call) and isinstance(fv.func, ast.Attribute) and fv.func.attr in ("strip", "lstrip", "rstrip") and not fv.args:
+                    fv = fv.func.value
+                try:
+                    fmt = idx.fold(awr.module, fv, cls=awr)
+                except AnalysisError:
+                    fmt = None
+                if isinstance(fmt, str):
+                    for m_ in re.finditer(r"\{[^{}]*:[^{}]*?\.(\d+)[eE]\}", fmt):
+                        out.append((int(m_.group(1)), c))
+            elif isinstance(c.func, ast.Attribute) and dotted(c.func.value) == "self" and depth < 3:
+                g = awr.resolve(c.func.attr)
+                if g is not None and g is not f:
+                    out += precisions(g, depth + 1)
+        return out
+    fw = awr.resolve("rwDouble")
+    ps_ = precisions(fw)
+    if not ps_:
+        raise AnalysisError("AsciiRecordWriter.rwDouble: no exponent format found")
+    for n_, (p_, c_) in enumerate(ps_):
+        r.require(p_ >= 16, f"ascii:rwDouble:format{n_}:17-significant-digits", fw, node=c_,
+                  msg=f"`{norm(c_)[:70]}` renders a double with {p_ + 1} significant digits; 17 are needed for the value read back to be the value written")
     # the same for integers: a 32-bit integer has up to ten digits and a sign
     fr, rl = reader_len("rwInt")
     fw = awr.resolve("rwInt")
@@ -579,6 +607,22 @@ def r3_r4_sites(idx, r3, r4):
             r4.violate(key, f, f"the value read for `{norm(c.args[0])}` is dropped: the reader never fills what the writer emits", node=c)
         else:
             r4.violate(key, f, f"writer emits `{norm(arg)}` but the reader stores the field into `{norm(tgt)}`", node=c)
+    # the same discipline one level up: `storage[A] = self._rwHelper(storage[B])` - a stream's own record helper receives and returns one slice
+    n_h = 0
+    for m in _cccc_modules(idx):
+        for f in m.all_funcs():
+            for st_ in walk_local(f.node):
+                if not (isinstance(st_, ast.Assign) and len(st_.targets) == 1 and isinstance(st_.value, ast.Call) and (dotted(st_.value.func) or "").startswith("self._rw") and len(st_.value.args) == 1 and not st_.value.keywords):
+                    continue
+                tgt, arg = st_.targets[0], st_.value.args[0]
+                if not (isinstance(tgt, ast.Subscript) and isinstance(arg, ast.Subscript) and norm(tgt.value) == norm(arg.value)):
+                    continue
+                n_h += 1
+                r4.require(same_expr(tgt, arg), f"{m.relpath.rsplit('/', 1)[-1]}:{f.qualname}:helper:{norm(st_.value.func)}", f, node=st_,
+                           msg=f"the helper is handed `{norm(arg)}` but its result is stored into `{norm(tgt)}`: the writer emits another slice than the reader fills (and the write path "
+                               "overwrites the caller's data with it)")
+    if n_h < 2:
+        raise AnalysisError(f"only {n_h} slice-in/slice-out record helpers found")
     r4.check.extra["c09_strict_sites"] = n_strict
 
 
@@ -1163,6 +1207,58 @@ def r15_sibling_stream_classes(idx, r):
         r.require("ljust" in txt or ":<" in txt, f"{cname}.rwString:pads-right", f, msg="character fields must be left-aligned / padded on the right")
 
 
+def r16_compxs_scatter_column(idx, r):
+    """COMPXS stores one scattering column per group as NUP up-scatter rows, the in-group term and NDN down-scatter rows, highest row first.
+    The writer flattens rows [lo, hi) of the column and reverses them; on reading, the row numbers attached to the values must be that very
+    sequence - for every (group, NUP, NDN), evaluated exhaustively on a small box (the expressions are affine in the three integers)."""
+    from ..minieval import MiniEval
+    CX = "armi.nuclearDataIO.cccc.compxs"
+    w = idx.func(CX + "._flattenScatteringVector")
+    rd = idx.method(CX + "._CompxsRegionIO", "_rwScatteringMatrix")
+    call = next((c for c in iter_calls(rd.node) if dotted(c.func) == "_flattenScatteringVector"), None)
+    if call is None or len(call.args) != len(w.params()):
+        raise AnchorMissing("_rwScatteringMatrix: _flattenScatteringVector(column, group, numUp, numDown)")
+    wenv = single_assign_env(w.node)
+    ret = next((n for n in walk_local(w.node) if isinstance(n, ast.Return)), None)
+    rv = propagate(ret.value, wenv)
+    sl = [x for x in ast.walk(rv) if isinstance(x, ast.Subscript) and isinstance(x.slice, ast.Slice) and norm(x.value) == w.params()[0]]
+    if len(sl) != 1 or sl[0].slice.step is not None or sl[0].slice.lower is None or sl[0].slice.upper is None:
+        raise AnalysisError("_flattenScatteringVector: one slice [lo:hi] of the column expected")
+    nrev = sum(1 for x in ast.walk(rv) if isinstance(x, ast.Call) and dotted(x.func) == "reversed") + sum(1 for x in ast.walk(rv) if isinstance(x, ast.Subscript) and isinstance(x.slice, ast.Slice) and norm(x.slice) == "::-1")
+    st_ = [s_ for s_ in iter_stores(rd.node) if s_.attr == "indicesj" and s_.value is not None]
+    add = next((c for c in iter_calls(rd.node) if call_attr(c) == "addColumnData"), None)
+    if len(st_) != 1 or add is None or norm(add.args[1]) != "indicesj" or norm(add.args[0]) != "dataj":
+        raise AnchorMissing("_rwScatteringMatrix: indicesj = ...; sparseMat.addColumnData(dataj, indicesj)")
+    names = [norm(a) for a in call.args[1:]]  # reader-side names of (group, numUp, numDown)
+    if not all(n.isidentifier() for n in names):
+        raise AnalysisError("_rwScatteringMatrix: plain names expected as arguments of _flattenScatteringVector")
+    rexpr = propagate(st_[0].value, {k: v for k, v in single_assign_env(rd.node).items() if k not in names})
+    ev = MiniEval()
+    bad = None
+    n = 0
+    for g in range(0, 6):
+        for up in range(0, 4):
+            for dn in range(0, min(g, 3) + 1):
+                wvals = dict(zip(w.params()[1:], (g, up, dn)))
+                lo, hi = ev._ev(sl[0].slice.lower, dict(wvals)), ev._ev(sl[0].slice.upper, dict(wvals))
+                want = list(range(lo, hi))
+                if nrev % 2:
+                    want.reverse()
+                got = ev._ev(rexpr, dict(zip(names, (g, up, dn))))
+                n += 1
+                if list(got) != want and bad is None:
+                    bad = (g, up, dn, list(got), want)
+    r.require(bad is None, "compxs:scatter-column:rows-read=rows-written", rd, node=st_[0].stmt,
+              msg=(f"for group {bad[0]} with {bad[1]} up- and {bad[2]} down-scatter groups the writer emits rows {bad[4]} but the reader labels the values {bad[3]}: scattering cross "
+                   "sections are attached to the wrong source groups") if bad else "")
+    cnt = next((c for c in iter_calls(rd.node) if call_attr(c) == "rwList" and len(c.args) >= 3), None)
+    if cnt is not None:
+        ok = all(ev._ev(cnt.args[2], dict(zip(names, v))) == v[1] + 1 + v[2] for v in ((2, 0, 0), (3, 2, 1), (5, 3, 3)))
+        r.require(ok, "compxs:scatter-column:count", rd, node=cnt, msg="the column holds NUP + 1 + NDN values")
+    if n < 50:
+        raise AnalysisError("compxs scatter column: evaluation box too small")
+
+
 def run(idx, chk):
     chk.explanation = (
         "C09: static reader/writer agreement for CCCC records: struct formats, byte counters and ASCII field widths of "
@@ -1211,3 +1307,5 @@ def run(idx, chk):
                  necessary="reading back what was written for every geometry type: the sibling records differ only in dimension")
     chk.run_rule("R09.15", "sibling stream classes: VARIANT streams read into VARIANT containers; character fields are padded right and only right-stripped", lambda r: r15_sibling_stream_classes(idx, r), floor=6,
                  necessary="reading a file produced by the writer returns data equal to what was written, for every stream class and for strings with leading blanks")
+    chk.run_rule("R09.16", "COMPXS scattering column: the row numbers attached on reading are the rows the writer flattened, in the same order (exhaustive on a box)", lambda r: r16_compxs_scatter_column(idx, r), floor=2,
+                 necessary="reading what was written returns the same matrix")
